@@ -19,7 +19,7 @@ MANIFEST = dict(
     text="Coq (proved, no assumptions): on the engine model Search.v, whose cancellation flag flips inside the k-th leaf evaluation, a cancelled "
          "Analyze that reports depth d returns exactly pv, value, depth and statistics of the uninterrupted call limited to depth d on the same "
          "engine state (cancel_truncates), d is the deepest such depth (cancel_deepest), and nothing completed means no move "
-         "(cancel_no_move); any k, configuration, table, history. cancel_preserves_engine (C16_cancel_preserves_engine; SearchTable3.v): for MakePrecise configurations with a table, the state left by a call cancelled inside any leaf evaluation satisfies the table invariant again and every later call on it reports right forced-result verdicts (under the NoCollision hypothesis of the table clause of C05). The model is replayed against MinimaxAI.Analyze with "
+         "(cancel_no_move); any k, configuration, table, history. cancel_preserves_engine (C16_cancel_preserves_engine; SearchTable3.v): for MakePrecise configurations with a table, the state left by a call cancelled inside any leaf evaluation satisfies the table invariant again and every later call on it reports right forced-result verdicts (under the NoCollision hypothesis of the table clause of C05; for the positions of one game only \"equal Position.Hash implies Position.Equal\": C16_cancel_preserves_engine_game). For every configuration without null move the soundness of later reports survives a cancellation (C16_cancel_preserves_soundness). The model is replayed against MinimaxAI.Analyze with "
          "cancellation injected deterministically at the same k (overlay accessor to the engine's flag), and an implementation-vs-"
          "implementation oracle checks EVERY cancellation point of each search against the depth-limited run, then the engine's later answers "
          "against exhaustive negamax.",
